@@ -135,6 +135,23 @@ def single_histories(cfgs, kinds_client, kinds_origin, stride=1):
     return out
 
 
+def reuse_histories(cfgs, kinds_origin, stride=1):
+    """A complete GET leaves an idle server connection; the next transaction (GET: retriable) is sent over
+    that reused connection and the origin aborts it there at every response offset.  Offset 0 is the
+    persistent-connection race: Squid re-forwards the request on a fresh connection (which the origin then
+    answers), so the retry machinery runs with a half-torn-down first attempt."""
+    out = []
+    S = LEN['S']['S']
+    for cfg in cfgs:
+        for kind in kinds_origin:
+            for off in range(0, S + 1, stride):
+                a = {'m': 'GET', 'kind': 'none'}
+                b = {'m': 'GET', 'kind': kind, 'phase': 'resp', 'off': off, 'reuse': True}
+                na, nb = len(script_for(a)), len(script_for(b))
+                out.append({'cfg': cfg, 'txns': [a, b], 'order': [0] * na + [1] * nb, 'reuse': True})
+    return out
+
+
 def phase_points(m):
     """(kind-class, phase, off) abort points used by the two-transaction histories."""
     L, S = LEN[m], LEN['S']
@@ -207,9 +224,11 @@ def pair_histories(cfgs, kinds_client, kinds_origin, max_preempt):
 
 
 def hist_name(h):
-    s = h['cfg'] + '|' + ' + '.join('%s %s@%s:%d' % (t['m'], t['kind'], t['phase'], t['off']) for t in h['txns'])
+    s = h['cfg'] + '|' + ' + '.join('%s %s@%s:%d' % (t['m'], t['kind'], t.get('phase', '-'), t.get('off', 0)) for t in h['txns'])
     if h.get('same_url'):
         s += ' same-url'
+    if h.get('reuse'):
+        s += ' reused-conn'
     if 'order' in h:
         s += ' order=' + ''.join(map(str, h['order']))
     return s
@@ -218,12 +237,14 @@ def hist_name(h):
 def hist_class(h):
     """Identity of a finding: configuration + abort kinds and phases, not the byte offset or merge order."""
     def ph(t):
+        if 'phase' not in t:
+            return 'complete'
         if t['phase'] == 'req':
             L = LEN[t['m']]
             return 'req-line' if t['off'] < L['rline'] else ('req-head' if t['off'] < L['head'] else 'req-body')
         S = LEN['S']
         return 'resp-none' if t['off'] == 0 else ('resp-head' if t['off'] < S['head'] else ('resp-body' if t['off'] < S['S'] else 'resp-complete'))
-    return h['cfg'] + '|' + '+'.join('%s:%s:%s' % (t['m'], t['kind'], ph(t)) for t in h['txns']) + ('|same-url' if h.get('same_url') else '')
+    return h['cfg'] + '|' + '+'.join('%s:%s:%s' % (t['m'], t['kind'], ph(t)) for t in h['txns']) + ('|same-url' if h.get('same_url') else '') + ('|reused-conn' if h.get('reuse') else '')
 
 
 # ------------------------------------------------------------------ the simulated environment
@@ -255,6 +276,7 @@ class OConn:
         self.cur_tag = None       # tag of the request currently arriving / last arrived
         self.first_tag = None
         self.hold_first = False   # the first request is left to the script
+        self.hold_tags = set()    # later requests on this (reused) connection that are left to the script
         self.eof_seen = False
 
 
@@ -382,6 +404,11 @@ class Sim:
                             if t is not None and t.scripted and t.held is None:
                                 t.held = oc
                                 oc.hold_first = True
+                        elif (t is not None and t.scripted and t.held is None and t.spec.get('reuse')
+                              and oc.cur_tag != oc.first_tag):
+                            # a scripted transaction that Squid sends over a reused idle connection
+                            t.held = oc
+                            oc.hold_tags.add(oc.cur_tag)
                     m = httpref.parse_request(rest)
                     if m.error:
                         raise HarnessError('origin received a malformed request: %s %r' % (m.error, rest[:200]))
@@ -393,7 +420,7 @@ class Sim:
                     t = self.txns.get(oc.cur_tag)
                     if t is None:
                         continue
-                    if oc.nreq == 1 and oc.hold_first:
+                    if (oc.nreq == 1 and oc.hold_first) or oc.cur_tag in oc.hold_tags:
                         continue            # the script decides
                     oc.c.send(t.S)
                     t.served += 1
@@ -795,10 +822,12 @@ def exactly_preempts(hs, k):
 def plan(ctx):
     """Groups of histories in decreasing priority (a deadline cuts the last groups first)."""
     if ctx.quick:
-        return [('single', single_histories(['nocache', 'memcache'], CLIENT_KINDS, ORIGIN_KINDS))]
+        return [('single', single_histories(['nocache', 'memcache'], CLIENT_KINDS, ORIGIN_KINDS)),
+                ('reused-connection', reuse_histories(['nocache'], ('oFIN', 'oRST')))]
     ck = ('cFIN', 'cRST', 'cSTALL')
     p2 = pair_histories(['nocache', 'memcache'], ck, ORIGIN_KINDS, 2)
     return [('single', single_histories(['nocache', 'memcache', 'nocache-halfclosed', 'memcache-halfclosed'], CLIENT_KINDS, ORIGIN_KINDS)),
+            ('reused-connection', reuse_histories(['nocache', 'memcache'], ORIGIN_KINDS)),
             ('pairs<=1preemption', _le1(p2)),
             ('pairs=2preemptions', exactly_preempts(p2, 2))]
 
